@@ -81,6 +81,8 @@ class M:
             if s:
                 return f"(BEmptySet {s[1]} {s[0]})"
             return f"(BNot {self.cond(c.operand)})"
+        if isinstance(c, ast.Name) and c.id in getattr(self, "abbrev", {}):
+            return self.cond(self.abbrev[c.id])
         if isinstance(c, ast.Name) and c.id in self.flags:
             return f"(BFlag {self.flags.index(c.id)})"
         if ast.unparse(c) in self.flag_exprs:
@@ -299,7 +301,7 @@ def translate():
         body = [s for s in fns[0].body if not (isinstance(s, ast.Expr) and isinstance(s.value, ast.Constant))]
         out.append(f"Definition {coqname} : list stmt :=\n  {M([], flags, None, members=members).block(body)}.\n")
     return out + translate_add_edge(cls[0]) + translate_add_edges_from_dict(cls[0]) + translate_add_edges_from_items(cls[0]) \
-        + translate_remove_nodes_from(cls[0])
+        + translate_remove_nodes_from(cls[0]) + translate_add_nodes_from(cls[0])
 
 
 DECODE_MEMBERS = ("try:\n    members = list(members)\n    member_set = set(members)\n"
@@ -403,6 +405,30 @@ def translate_remove_nodes_from(cls):
     if len(rest) != 1 or ast.unparse(rest[0]) != f"self.remove_node({var}, strong=strong, remove_empty=remove_empty)":
         raise TranslationError("Hypergraph.remove_nodes_from: expected the call of remove_node with the same options")
     return [f"Definition src_remove_nodes_from_guards : list (bexp * guard_action) :=\n  [{'; '.join(gs)}].\n"]
+
+
+DECODE_NODE_ITEM = ("try:\n    newnode = n not in self._node\n    newdict = attr\nexcept TypeError:\n    n, ndict = n\n"
+                    "    newnode = n not in self._node\n    newdict = attr.copy()\n    newdict.update(ndict)")
+
+
+def translate_add_nodes_from(cls):
+    """add_nodes_from(self, nodes_for_adding, **attr): for n in nodes_for_adding: <decoding>; <statements>.  The decoding (is the item a
+    node or a (node, dict) pair; newnode = n not in self._node; newdict = attr, or a copy of attr updated with the item's dict) is
+    accepted verbatim: the interpreter is handed the node and the dict, `newnode` is read as the condition it abbreviates"""
+    fns = [n for n in cls.body if isinstance(n, ast.FunctionDef) and n.name == "add_nodes_from"]
+    if len(fns) != 1 or [a.arg for a in fns[0].args.args] != ["self", "nodes_for_adding"] or fns[0].args.kwarg is None \
+            or fns[0].args.kwarg.arg != "attr":
+        raise TranslationError("Hypergraph.add_nodes_from not found or unexpected parameters")
+    body = [s for s in fns[0].body if not (isinstance(s, ast.Expr) and isinstance(s.value, ast.Constant))]
+    if not (len(body) == 1 and isinstance(body[0], ast.For) and isinstance(body[0].target, ast.Name) and body[0].target.id == "n"
+            and ast.unparse(body[0].iter) == "nodes_for_adding" and not body[0].orelse and body[0].body
+            and ast.unparse(body[0].body[0]) == DECODE_NODE_ITEM):
+        raise TranslationError("Hypergraph.add_nodes_from: loop or decoding of the item not understood")
+    m = M([], [], "newdict")
+    m.loops = ["n"]
+    m.flag_exprs = {}
+    m.abbrev = {"newnode": ast.parse("n not in self._node", mode="eval").body}
+    return [f"Definition src_add_nodes_from_item : list stmt :=\n  {m.block(body[0].body[1:])}.\n"]
 
 
 def translate_add_edge(cls):
